@@ -1,8 +1,8 @@
 (** C18 — Graphs are ingested and persisted faithfully.
     Statements closed by [exact], their assumptions, and non-vacuity examples.
-    [Gen/PathCheck.v] is regenerated from sknetwork/data/load.py on every run. *)
+    [Gen/PathCheck.v] and [Gen/ParseCalls.v] are regenerated from sknetwork/data/load.py and parse.py on every run. *)
 From Coq Require Import String Ascii.
-From SKN Require Import Base.Util Model.PathSafe Model.Parse Proofs.PathSafeProofs Proofs.ParseProofs Gen.PathCheck.
+From SKN Require Import Base.Util Model.PathSafe Model.Parse Proofs.PathSafeProofs Proofs.ParseProofs Gen.PathCheck Gen.ParseCalls.
 
 (** * Part A — archive members are confined to the dataset folder *)
 
@@ -69,47 +69,74 @@ Print Assumptions safe_extract_commonprefix_refuted.
 
 (** * Part B — ingestion *)
 
-(** For every identifier type with a decidable equality, every integer reading [as_int] that is
+(** [pp_sym_passes_weighted] (Gen/ParseCalls.v) records whether from_edge_array calls
+    [directed2undirected(matrix, weighted=weighted)] (true) or [directed2undirected(matrix)] (false);
+    the model follows it.
+
+    For every identifier type with a decidable equality, every integer reading [as_int] that is
     injective, every [unique] oracle returning the distinct values with their inverse map, all flag
     combinations, all edge arrays and integer weights: entry (i, j) of the matrix built by
     from_edge_array / from_edge_list is the sum of the weights listed for edge (names[i], names[j])
     (the first one only if sum_duplicates is off; 1 iff some non-zero weight is listed if weighted
-    is off), plus the reverse direction when the graph is undirected; a biadjacency matrix is indexed
-    by row names and column names separately. The combination "unweighted, undirected, some edge
-    listed in both directions" is excluded: see [unweighted_undirected_binary_refuted]. *)
+    is off), plus the reverse direction when the graph is undirected (still binary when unweighted);
+    a biadjacency matrix is indexed by row names and column names separately.
+    Unless the call hands over [weighted], the combination "unweighted, undirected, some edge listed
+    in both directions" is excluded: see [unweighted_undirected_binary_refuted]. *)
 Theorem edge_array_entry {id : Type} (ideqb : id -> id -> bool) (as_int : id -> option nat)
         (unique : list id -> list id * list nat)
         (fl : flags) (edge_array : list (id * id)) (weights : option (list Z)) (d : dataset) :
   (forall a b, ideqb a b = true <-> a = b) ->
   (forall a b k, as_int a = Some k -> as_int b = Some k -> a = b) ->
   unique_ok ideqb unique ->
-  from_edge_array ideqb as_int unique fl edge_array weights = Some d ->
-  (weighted fl = true \/ directed fl = true \/ bipartite fl = true \/
+  from_edge_array ideqb as_int unique pp_sym_passes_weighted fl edge_array weights = Some d ->
+  (pp_sym_passes_weighted = true \/
+   weighted fl = true \/ directed fl = true \/ bipartite fl = true \/
    has_reciprocal ideqb (raw_edges edge_array weights) = false) ->
   forall i j, entry (d_matrix d) i j =
               spec_entry ideqb as_int fl (row_names d) (col_names d) (raw_edges edge_array weights) i j.
-Proof. exact (fun H1 H2 H3 => from_edge_array_entry ideqb as_int unique H1 H2 H3 fl edge_array weights d). Qed.
+Proof.
+  exact (fun H1 H2 H3 => from_edge_array_entry ideqb as_int unique pp_sym_passes_weighted H1 H2 H3 fl edge_array weights d).
+Qed.
 Print Assumptions edge_array_entry.
 
-(** What the code computes in every case (no exclusion): the undirected branch adds the two
-    directions, also for an unweighted graph. *)
+(** With [weighted] handed over to directed2undirected the specification holds for all flag combinations. *)
+Theorem edge_array_entry_when_weighted_is_passed {id : Type} (ideqb : id -> id -> bool) (as_int : id -> option nat)
+        (unique : list id -> list id * list nat)
+        (fl : flags) (edge_array : list (id * id)) (weights : option (list Z)) (d : dataset) :
+  (forall a b, ideqb a b = true <-> a = b) ->
+  (forall a b k, as_int a = Some k -> as_int b = Some k -> a = b) ->
+  unique_ok ideqb unique ->
+  from_edge_array ideqb as_int unique true fl edge_array weights = Some d ->
+  forall i j, entry (d_matrix d) i j =
+              spec_entry ideqb as_int fl (row_names d) (col_names d) (raw_edges edge_array weights) i j.
+Proof.
+  exact (fun H1 H2 H3 H => from_edge_array_entry ideqb as_int unique true H1 H2 H3 fl edge_array weights d H
+                             (or_introl eq_refl)).
+Qed.
+Print Assumptions edge_array_entry_when_weighted_is_passed.
+
+(** What the code computes in every case (no exclusion). *)
 Theorem edge_array_entry_as_coded {id : Type} (ideqb : id -> id -> bool) (as_int : id -> option nat)
         (unique : list id -> list id * list nat)
         (fl : flags) (edge_array : list (id * id)) (weights : option (list Z)) (d : dataset) :
   (forall a b, ideqb a b = true <-> a = b) ->
   (forall a b k, as_int a = Some k -> as_int b = Some k -> a = b) ->
   unique_ok ideqb unique ->
-  from_edge_array ideqb as_int unique fl edge_array weights = Some d ->
+  from_edge_array ideqb as_int unique pp_sym_passes_weighted fl edge_array weights = Some d ->
   forall i j, entry (d_matrix d) i j =
-              coded_entry ideqb as_int fl (row_names d) (col_names d) (raw_edges edge_array weights) i j.
-Proof. exact (fun H1 H2 H3 => from_edge_array_coded ideqb as_int unique H1 H2 H3 fl edge_array weights d). Qed.
+              coded_entry ideqb as_int pp_sym_passes_weighted fl (row_names d) (col_names d)
+                          (raw_edges edge_array weights) i j.
+Proof.
+  exact (fun H1 H2 H3 => from_edge_array_coded ideqb as_int unique pp_sym_passes_weighted H1 H2 H3 fl edge_array weights d).
+Qed.
 Print Assumptions edge_array_entry_as_coded.
 
-(** The faithful model violates the property on the excluded combination: edges (0,1) and (1,0),
-    weighted=False, directed=False give entry (0,1) = 2 where a binary entry is specified. *)
+(** The faithful model of the call WITHOUT the flag violates the property on the excluded
+    combination: edges (0,1) and (1,0), weighted=False, directed=False give entry (0,1) = 2 where a
+    binary entry is specified. *)
 Theorem unweighted_undirected_binary_refuted :
   exists (edge_array : list (nat * nat)) d i j,
-    from_edge_list_nat d16_flags edge_array None = Some d /\
+    from_edge_list_nat false d16_flags edge_array None = Some d /\
     entry (d_matrix d) i j = 2%Z /\
     spec_entry Nat.eqb as_int_nat d16_flags (row_names d) (col_names d) (raw_edges edge_array None) i j = 1%Z.
 Proof. exact ParseProofs.unweighted_undirected_binary_refuted. Qed.
@@ -123,7 +150,7 @@ Theorem names_roundtrip {id : Type} (ideqb : id -> id -> bool) (as_int : id -> o
         (fl : flags) (edge_array : list (id * id)) (weights : option (list Z)) (d : dataset) :
   (forall a b, ideqb a b = true <-> a = b) ->
   unique_ok ideqb unique ->
-  from_edge_array ideqb as_int unique fl edge_array weights = Some d ->
+  from_edge_array ideqb as_int unique pp_sym_passes_weighted fl edge_array weights = Some d ->
   (forall a b, In (a, b) edge_array ->
      exists i j, i < fst (m_shape (d_matrix d)) /\ j < snd (m_shape (d_matrix d)) /\
                  is_node ideqb as_int (row_names d) i a = true /\ is_node ideqb as_int (col_names d) j b = true) /\
@@ -135,7 +162,7 @@ Theorem names_roundtrip {id : Type} (ideqb : id -> id -> bool) (as_int : id -> o
      forall x, In x ns -> exists e, In e edge_array /\ (x = fst e \/ x = snd e)) /\
   d_names d = row_names d /\
   (reindex fl = true -> row_names d <> None /\ col_names d <> None).
-Proof. exact (fun H1 H3 => from_edge_array_names ideqb as_int unique H1 H3 fl edge_array weights d). Qed.
+Proof. exact (fun H1 H3 => from_edge_array_names ideqb as_int unique pp_sym_passes_weighted H1 H3 fl edge_array weights d). Qed.
 Print Assumptions names_roundtrip.
 
 (** The reference [unique] used to run the model meets the oracle contract (the theorems above are
@@ -183,12 +210,14 @@ Proof. vm_compute. repeat split; reflexivity. Qed.
 Example c18_ingest_nonvacuous :
   let fl := {| directed := false; bipartite := false; weighted := true; reindex := false;
                sum_duplicates := true; shape := None; matrix_only := None |} in
-  view (from_edge_list_str fl [("b", "a"); ("a", "b"); ("b", "a"); ("c", "a")]%string (Some [2; 3; 5; 1]%Z))
+  view (from_edge_list_str pp_sym_passes_weighted fl [("b", "a"); ("a", "b"); ("b", "a"); ("c", "a")]%string (Some [2; 3; 5; 1]%Z))
   = Some (3, 3, [(2, 0, 1%Z); (1, 0, 10%Z); (0, 1, 10%Z); (0, 2, 1%Z)], false,
           (Some ["a"; "b"; "c"]%string, None, None), false) /\
   has_reciprocal Nat.eqb (raw_edges [(0, 1); (2, 1)] None) = false /\
-  view (from_edge_list_nat d16_flags [(0, 1); (2, 1)] None)
-  = Some (3, 3, [(0, 1, 1%Z); (2, 1, 1%Z); (1, 0, 1%Z); (1, 2, 1%Z)], false, (None, None, None), true).
+  view (from_edge_list_nat pp_sym_passes_weighted
+          {| directed := true; bipartite := false; weighted := false; reindex := false;
+             sum_duplicates := false; shape := Some (2, 5); matrix_only := None |} [(0, 1); (2, 1); (0, 1)] None)
+  = Some (3, 3, [(0, 1, 1%Z); (2, 1, 1%Z)], true, (None, None, None), true).
 Proof. vm_compute. repeat split; reflexivity. Qed.
 
 Example c18_csv_nonvacuous :
